@@ -736,7 +736,7 @@ func newMutator(base []byte, lay *simdoh.Layout, fam string, masks []byte) *muta
 	case "ptrlabel":
 		m.n = len(lay.Labels) * (L + 2)
 	case "counts":
-		m.n = 4 * (len(countValues) + 2)
+		m.n = 4*(len(countValues)+2) + 3
 	case "rdlen":
 		m.sub = append(append([]int(nil), lay.RDLens...), lay.ParamLens...)
 		sort.Ints(m.sub)
@@ -799,6 +799,14 @@ func (m *mutator) get(i int, buf []byte) (c bodyCase, desc string) {
 		}
 	case "counts":
 		per := len(countValues) + 2
+		if i >= 4*per {
+			// more questions than the resolver asked: k well-formed extra ones
+			// (each a pointer to the first name, with a type and class) behind the
+			// first, every later name pointer moved along
+			k := []int{1, 2, 7}[i-4*per]
+			b, desc = extraQuestions(b, m.lay, k), fmt.Sprintf("%d further well-formed questions after the one asked", k)
+			break
+		}
 		f, k := i/per, i%per
 		off := 4 + 2*f
 		old := get16(b, off)
@@ -873,6 +881,41 @@ func (m *mutator) get(i int, buf []byte) (c bodyCase, desc string) {
 	}
 	c.body = b
 	return c, desc
+}
+
+// extraQuestions inserts k questions (pointer to offset 12, type A, class IN)
+// behind the first question of a well-formed message and sets QDCOUNT.
+func extraQuestions(b []byte, lay *simdoh.Layout, k int) []byte {
+	if len(b) < 17 || get16(b, 4) != 1 {
+		return b
+	}
+	end := 12
+	for end < len(b) && b[end] != 0 {
+		if b[end]&0xc0 != 0 {
+			return b
+		}
+		end += 1 + int(b[end])
+	}
+	end += 5 // root label, type, class
+	if end > len(b) {
+		return b
+	}
+	shift := 6 * k
+	out := append([]byte(nil), b[:end]...)
+	for i := 0; i < k; i++ {
+		out = append(out, 0xc0, 12, 0, 1, 0, 1)
+	}
+	out = append(out, b[end:]...)
+	put16(out, 4, 1+k)
+	for _, p := range lay.Pointers {
+		if p < end || p+1 >= len(b) {
+			continue
+		}
+		if t := get16(b, p) & 0x3fff; t >= end {
+			put16(out, p+shift, 0xc000|(t+shift))
+		}
+	}
+	return out
 }
 
 func extraRecords() (auth, add []simdoh.RR) {
